@@ -85,46 +85,50 @@ Definition parse_html_text (which : String.string) (value : node) (s : st) : nod
   end.
 Arguments parse_html_text _%string_scope _ _.
 
+(* the array form `[value, arg?, [modifiers]?]`, shared by v-model and runtime directives;
+   [dflt]: a component's v-model gets the explicit `null` argument *)
+Definition array_form (dflt : bool) (argument : option node) (splitted : list str) (elems : list node)
+  : node * option node * option (list str) :=
+  let v := match elems with Elem false e :: _ => e | _ => empty_ident end in
+  let arg_d := if dflt then match argument with None => Some Null | _ => argument end else argument in
+  match elem_at elems 1 with
+  | Some (Arr elems2) => (v, arg_d, Some (parse_modifiers elems2))
+  | Some e =>
+      (v, match argument with None => Some e | _ => argument end,
+       match elem_at elems 2 with
+       | Some (Arr elems3) => Some (parse_modifiers elems3)
+       | _ => None
+       end)
+  | None => (v, arg_d, Some (set_of_list splitted))
+  end.
+
+Definition vmodel_attr_value (value : node) (s : st) : node * st :=
+  match value with
+  | JExprC JEmpty =>
+      (empty_ident, add_diag "You have to use JSX Expression inside your `v-model`." s)
+  | JExprC e => (e, s)
+  | _ => (empty_ident, add_diag "You have to use JSX Expression inside your `v-model`." s)
+  end.
+
+Definition vmodel_first_check (attr_value : node) (s : st) : st :=
+  match attr_value with
+  | Arr (Elem false _ :: _) => s
+  | Arr _ => add_diag "The first element of `v-model` array must be the bound expression." s
+  | _ => s
+  end.
+
+Definition vmodel_parts (attr_value : node) (is_component : bool) (argument : option node)
+           (splitted : list str) : node * option node * option (list str) :=
+  match attr_value with
+  | Arr elems => array_form is_component argument splitted elems
+  | _ => (attr_value, argument, Some (set_of_list splitted))
+  end.
+
 Definition parse_v_model (value : node) (is_component : bool) (argument : option node)
            (splitted : list str) (s : st) : directive * st :=
-  let '(attr_value, s) :=
-    match value with
-    | JExprC JEmpty =>
-        (empty_ident, add_diag "You have to use JSX Expression inside your `v-model`." s)
-    | JExprC e => (e, s)
-    | _ => (empty_ident, add_diag "You have to use JSX Expression inside your `v-model`." s)
-    end in
-  let s :=
-    match attr_value with
-    | Arr (Elem false _ :: _) => s
-    | Arr _ => add_diag "The first element of `v-model` array must be the bound expression." s
-    | _ => s
-    end in
-  let '(value', argument, modifiers) :=
-    match attr_value with
-    | Arr elems =>
-        let v := match elems with Elem false e :: _ => e | _ => empty_ident end in
-        match elem_at elems 1 with
-        | Some (Arr elems2) =>
-            let argument := if is_component then
-                              match argument with None => Some Null | _ => argument end
-                            else argument in
-            (v, argument, Some (parse_modifiers elems2))
-        | Some e =>
-            let argument := match argument with None => Some e | _ => argument end in
-            let mods := match elem_at elems 2 with
-                        | Some (Arr elems3) => Some (parse_modifiers elems3)
-                        | _ => None
-                        end in
-            (v, argument, mods)
-        | None =>
-            let argument := if is_component then
-                              match argument with None => Some Null | _ => argument end
-                            else argument in
-            (v, argument, Some (set_of_list splitted))
-        end
-    | _ => (attr_value, argument, Some (set_of_list splitted))
-    end in
+  let '(attr_value, s) := vmodel_attr_value value s in
+  let s := vmodel_first_check attr_value s in
+  let '(value', argument, modifiers) := vmodel_parts attr_value is_component argument splitted in
   (DVModel argument
            (if negb is_component && nonempty_mods modifiers then or_void0 argument else argument)
            (match modifiers with Some m => transform_modifiers m is_component | None => None end)
@@ -135,6 +139,15 @@ Definition parse_v_slots (value : node) : directive :=
   | JExprC ((Ident _ _ _) as e) => DSlots (Some e)
   | JExprC ((Obj _) as e) => DSlots (Some e)
   | _ => DSlots None
+  end.
+
+Definition normal_parts (value : node) (argument : option node) (splitted : list str)
+  : node * option node * option (list str) :=
+  match value with
+  | JExprC JEmpty => (empty_ident, argument, Some (set_of_list splitted))
+  | JExprC (Arr elems) => array_form false argument splitted elems
+  | JExprC e => (e, argument, Some (set_of_list splitted))
+  | _ => (empty_ident, argument, Some (set_of_list splitted))
   end.
 
 (* parse_directive(jsx_attr, is_component); [name]/[value] are the attribute's fields *)
@@ -159,25 +172,7 @@ Definition parse_directive (name value : node) (is_component : bool) (s : st) : 
   else if sq "model" dname then parse_v_model value is_component argument splitted s
   else if sq "slots" dname then (parse_v_slots value, s)
   else
-    let '(value', argument, modifiers) :=
-      match value with
-      | JExprC JEmpty => (empty_ident, argument, Some (set_of_list splitted))
-      | JExprC (Arr elems) =>
-          let v := match elems with Elem false e :: _ => e | _ => empty_ident end in
-          match elem_at elems 1 with
-          | Some (Arr elems2) => (v, argument, Some (parse_modifiers elems2))
-          | Some e =>
-              let argument := match argument with None => Some e | _ => argument end in
-              let mods := match elem_at elems 2 with
-                          | Some (Arr elems3) => Some (parse_modifiers elems3)
-                          | _ => None
-                          end in
-              (v, argument, mods)
-          | None => (v, argument, Some (set_of_list splitted))
-          end
-      | JExprC e => (e, argument, Some (set_of_list splitted))
-      | _ => (empty_ident, argument, Some (set_of_list splitted))
-      end in
+    let '(value', argument, modifiers) := normal_parts value argument splitted in
     (DNormal dname
              (if nonempty_mods modifiers then or_void0 argument else argument)
              (match modifiers with Some m => transform_modifiers m false | None => None end)
